@@ -186,7 +186,7 @@ def parseImpl (s : String) : Option (List Bool × String × List Batch) :=
 
 /-- canonical form of a batch whose slices were filled in an unknown order is not needed: the
 typed lists, `Objects` and each `Links[r]` are slices and the sequential order is deterministic -/
-def events (ops : List Op) : List Event := ops.filterMap fun | .ev e => some e | .swap => none
+def events (ops : List Op) : List Event := eventsOf ops
 
 /-- acceptance as observed: the i-th event was accepted iff the i-th bit is set -/
 def accObserved (ops : List Op) (bits : List Bool) : Event → Bool :=
